@@ -265,13 +265,215 @@ Section Programs.
   Lemma isfE : (eval_mx env (isf_prog d N)) ord0 ord0 = isf Xtr.
   Proof. by rewrite /isf_prog /= map_recipE mxE sf2E. Qed.
 
+  Opaque isf_prog.
+
   Lemma meansE k n (M : mexp k n) (X : mexp n d) :
     eval_mx env (means_prog d N M X) = isf Xtr *: (avg (eval_mx env M) *m eval_mx env X).
   Proof.
-    rewrite /means_prog /=; set c := (_ ord0 ord0); have -> : c = isf Xtr by exact: isfE.
+    rewrite /means_prog /= isfE.
     rewrite -scalemxAr mul_diag_mx; apply/matrixP => s f; rewrite !mxE.
     rewrite (eq_bigr (fun b => eval_mx env M s b)); last by move=> b _; rewrite mxE mulr1.
-    rewrite mulr_sumr; apply: eq_bigr => a _.
-    by rewrite !mxE mulrA.
+    rewrite /= !mulr_sumr; apply: eq_bigr => a _.
+    by rewrite [LHS]mulrCA; congr (_ * _); rewrite /avg mxE mulrA.
+  Qed.
+
+  (* the per-structure averaged, globally scaled training features *)
+  Definition Xstruc : 'M[F]_(S, d) := isf Xtr *: (avg Mtr *m Xtr).
+
+  Lemma xstrucE : eval_mx env (xstruc_prog d N S) = Xstruc.
+  Proof. by rewrite /xstruc_prog meansE. Qed.
+
+  Opaque means_prog xstruc_prog.
+
+  Lemma xprimeE : eval_mx env (xprime_prog d N S) = reg Xstruc alpha.
+  Proof. by rewrite /xprime_prog /= xstrucE scalemx1. Qed.
+
+  Opaque xprime_prog.
+
+  Lemma hypE :
+    eval_mx env (hyp_prog d N S) = 0 <-> reg Xstruc alpha *m Xinv = 1%:M.
+  Proof.
+    rewrite /hyp_prog /= xprimeE.
+    by split=> [/subr0_eq|->]; rewrite ?subrr.
+  Qed.
+
+  Lemma quadE k (Z : mexp k d) i :
+    (eval_mx env (quad_prog d Z)) i ord0 = qf Xinv (row i (eval_mx env Z)).
+  Proof.
+    rewrite /quad_prog /qf /= -row_mul !mxE; apply: eq_bigr => j _.
+    by rewrite !mxE mulr1.
+  Qed.
+
+  Lemma maskedE k (Z : mexp k d) i :
+    row i (eval_mx env (masked d Z)) = maskrow mask (row i (eval_mx env Z)).
+  Proof.
+    apply/rowP => j; rewrite /masked /= !mxE; congr (_ * _).
+    by rewrite big_ord1 !mxE mul1r.
+  Qed.
+
+  Lemma xtestE : eval_mx env (xtest_prog d N Nt) = isf Xtr *: Xte.
+  Proof. by rewrite /xtest_prog /= isfE. Qed.
+
+  Opaque quad_prog masked xtest_prog.
+
+  (* the three outputs, entry by entry *)
+  Definition x_env (i : 'I_Nt) : 'rV[F]_d := isf Xtr *: row i Xte.
+  Definition x_struc (s : 'I_St) : 'rV[F]_d := isf Xtr *: row s (avg Mte *m Xte).
+
+  Lemma lprE i : (eval_mx env (lpr_prog d N Nt)) i ord0 = (qf Xinv (x_env i))^-1.
+  Proof.
+    by rewrite /lpr_prog /= map_recipE quadE xtestE linearZ.
+  Qed.
+
+  Lemma lcprE i :
+    (eval_mx env (lcpr_prog d N Nt)) i ord0 = (qf Xinv (maskrow mask (x_env i)))^-1.
+  Proof.
+    by rewrite /lcpr_prog /= map_recipE quadE maskedE xtestE linearZ.
+  Qed.
+
+  Lemma cprE s :
+    (eval_mx env (cpr_prog d N Nt St)) s ord0 = (qf Xinv (maskrow mask (x_struc s)))^-1.
+  Proof.
+    by rewrite /cpr_prog /= map_recipE quadE maskedE meansE linearZ.
   Qed.
 End Programs.
+
+(* ================================================================== Part 3 *)
+(* the oracle hypothesis on an environment:  (XX + alpha I) * Xinv = I *)
+Definition rig_hyp (F : rcfType) (env : env_mx F) (d N S : nat) : Prop :=
+  eval_mx env (hyp_prog d N S) = 0.
+
+(* lists of booleans (component masks, membership rows) as matrices over F *)
+Definition bvec_mx (F : rcfType) d (l : seq bool) : 'rV[F]_d := \row_j (nth false l j)%:R.
+Definition bmat_mx (F : rcfType) m n (B : seq (seq bool)) : 'M[F]_(m, n) :=
+  \matrix_(i, j) (nth false (nth [::] B i) j)%:R.
+
+Section Theorems.
+  Variable F : rcfType.
+  Variables (d N S Nt St : nat).
+  Implicit Types env : env_mx F.
+
+  Local Notation A env := (reg (Xstruc d N S env) (e_alpha env)).
+  Local Notation lpr env := (eval_mx env (lpr_prog d N Nt)).
+  Local Notation lcpr env := (eval_mx env (lcpr_prog d N Nt)).
+  Local Notation cpr env := (eval_mx env (cpr_prog d N Nt St)).
+  Local Notation xe env := (@x_env F d N Nt env).
+  Local Notation xs env := (@x_struc F d N Nt St env).
+  Local Notation mk env := (e_mask env d).
+
+  Lemma hypAP env : rig_hyp env d N S -> A env *m e_Xinv env d = 1%:M.
+  Proof. by move/hypE. Qed.
+
+  (* ---- closed form: the oracle hypothesis pins Xinv to the inverse ---- *)
+  Theorem rig_closed_form env :
+    rig_hyp env d N S ->
+    [/\ forall i, lpr env i ord0 = (qf (invmx (A env)) (xe env i))^-1,
+        forall i, lcpr env i ord0 = (qf (invmx (A env)) (maskrow (mk env) (xe env i)))^-1
+      & forall s, cpr env s ord0 = (qf (invmx (A env)) (maskrow (mk env) (xs env s)))^-1].
+  Proof.
+    move=> /hypAP AP; rewrite -(inv_is_invmx AP).
+    by split=> i; rewrite ?lprE ?lcprE ?cprE.
+  Qed.
+
+  (* ---- strict positivity ---- *)
+  Lemma isf_gt0 env : 0 < sf2 (e_Xtr env N d) -> 0 < isf (e_Xtr env N d).
+  Proof. by move=> s0; rewrite /isf invr_gt0 sqrtr_gt0. Qed.
+
+  Lemma scaled_neq0 env (z : 'rV[F]_d) :
+    0 < sf2 (e_Xtr env N d) -> z != 0 -> isf (e_Xtr env N d) *: z != 0.
+  Proof. by move=> /isf_gt0 c0 z0; rewrite scaler_eq0 negb_or z0 andbT gt_eqF. Qed.
+
+  Theorem rig_positive env :
+    0 < e_alpha env -> rig_hyp env d N S -> 0 < sf2 (e_Xtr env N d) ->
+    [/\ forall i, row i (e_Xte env Nt d) != 0 -> 0 < lpr env i ord0,
+        forall i, maskrow (mk env) (row i (e_Xte env Nt d)) != 0 -> 0 < lcpr env i ord0
+      & forall s, maskrow (mk env) (row s (avg (e_Mte env St Nt) *m e_Xte env Nt d)) != 0 ->
+                  0 < cpr env s ord0].
+  Proof.
+    move=> a0 /hypAP AP s0; split=> i z0.
+    - by rewrite lprE invr_gt0; apply: reginv_pos a0 AP _ _; apply: scaled_neq0.
+    - rewrite lcprE invr_gt0; apply: reginv_pos a0 AP _ _.
+      by rewrite /x_env maskrowZ; apply: scaled_neq0.
+    - rewrite cprE invr_gt0; apply: reginv_pos a0 AP _ _.
+      by rewrite /x_struc maskrowZ; apply: scaled_neq0.
+  Qed.
+
+  (* ---- invariance under a common rescaling of all features ---- *)
+  Definition rescaled (c : F) env env' : Prop :=
+    [/\ e_Xtr env' N d = c *: e_Xtr env N d, e_Xte env' Nt d = c *: e_Xte env Nt d,
+        e_Mtr env' S N = e_Mtr env S N, e_Mte env' St Nt = e_Mte env St Nt,
+        e_alpha env' = e_alpha env & e_mask env' d = e_mask env d].
+
+  Theorem rig_scale_invariant (c : F) env env' :
+    c != 0 -> rescaled c env env' -> rig_hyp env d N S -> rig_hyp env' d N S ->
+    [/\ lpr env' = lpr env, lcpr env' = lcpr env & cpr env' = cpr env].
+  Proof.
+    move=> c0 [Etr Ete EMtr EMte Ea Em] /hypAP AP /hypAP AP'.
+    set sg := `|c|^-1 * c.
+    have sgsg : sg * sg = 1.
+      rewrite /sg mulrACA -invfM -normrM -expr2 real_normK ?num_real //.
+      by rewrite mulVf // expf_neq0.
+    have isfE' : isf (e_Xtr env' N d) * c = sg * isf (e_Xtr env N d).
+      by rewrite Etr isfZ /sg mulrAC.
+    have XsE : Xstruc d N S env' = sg *: Xstruc d N S env.
+      by rewrite /Xstruc Etr EMtr -scalemxAr !scalerA isfE'.
+    have AE : A env' = A env by rewrite XsE Ea regZ.
+    have PE : e_Xinv env' d = e_Xinv env d.
+      by apply: (inv_unique AP); rewrite -AE.
+    have xeE i : xe env' i = sg *: xe env i.
+      by rewrite /x_env Ete linearZ /= !scalerA isfE'.
+    have xsE s : xs env' s = sg *: xs env s.
+      by rewrite /x_struc Ete EMte -scalemxAr linearZ /= !scalerA isfE'.
+    split; apply/colP => i.
+    - by rewrite !lprE PE xeE qfZ sgsg mul1r.
+    - by rewrite !lcprE PE Em xeE maskrowZ qfZ sgsg mul1r.
+    - by rewrite !cprE PE Em xsE maskrowZ qfZ sgsg mul1r.
+  Qed.
+
+  (* ---- non-decreasing in alpha ---- *)
+  Definition same_data env env' : Prop :=
+    [/\ e_Xtr env' N d = e_Xtr env N d, e_Xte env' Nt d = e_Xte env Nt d,
+        e_Mtr env' S N = e_Mtr env S N, e_Mte env' St Nt = e_Mte env St Nt
+      & e_mask env' d = e_mask env d].
+
+  Theorem rig_monotone_alpha env env' :
+    same_data env env' -> 0 < e_alpha env -> e_alpha env <= e_alpha env' ->
+    rig_hyp env d N S -> rig_hyp env' d N S -> 0 < sf2 (e_Xtr env N d) ->
+    [/\ forall i, row i (e_Xte env Nt d) != 0 -> lpr env i ord0 <= lpr env' i ord0,
+        forall i, maskrow (mk env) (row i (e_Xte env Nt d)) != 0 ->
+                  lcpr env i ord0 <= lcpr env' i ord0
+      & forall s, maskrow (mk env) (row s (avg (e_Mte env St Nt) *m e_Xte env Nt d)) != 0 ->
+                  cpr env s ord0 <= cpr env' s ord0].
+  Proof.
+    move=> [Etr Ete EMtr EMte Em] a0 ab /hypAP AP /hypAP AP' s0.
+    have b0 : 0 < e_alpha env' by apply: lt_le_trans a0 ab.
+    have XsE : Xstruc d N S env' = Xstruc d N S env by rewrite /Xstruc Etr EMtr.
+    rewrite XsE in AP'.
+    have xeE i : xe env' i = xe env i by rewrite /x_env Ete Etr.
+    have xsE s : xs env' s = xs env s by rewrite /x_struc Ete EMte Etr.
+    have key (z : 'rV[F]_d) : z != 0 ->
+        (qf (e_Xinv env d) z)^-1 <= (qf (e_Xinv env' d) z)^-1.
+      move=> z0; rewrite lef_pinv ?posrE; first exact: qf_mono a0 ab AP AP' z.
+      - exact: reginv_pos b0 AP' _ z0.
+      - exact: reginv_pos a0 AP _ z0.
+    split=> i z0.
+    - by rewrite !lprE xeE; apply: key; apply: scaled_neq0.
+    - rewrite !lcprE xeE Em; apply: key.
+      by rewrite /x_env maskrowZ; apply: scaled_neq0.
+    - rewrite !cprE xsE Em; apply: key.
+      by rewrite /x_struc maskrowZ; apply: scaled_neq0.
+  Qed.
+
+  (* ---- one component covering all features: LCPR = LPR ---- *)
+  Lemma bvec_single : bvec_mx F d (comp_mask [:: d] 0) = const_mx 1.
+  Proof.
+    apply/rowP => j; rewrite !mxE comp_mask_single //.
+    by apply/ltP; exact: ltn_ord.
+  Qed.
+
+  Theorem rig_lcpr_single_component env :
+    e_mask env d = bvec_mx F d (comp_mask [:: d] 0) -> lcpr env = lpr env.
+  Proof.
+    by move=> Em; apply/colP => i; rewrite lcprE lprE Em bvec_single maskrow_ones.
+  Qed.
+End Theorems.
